@@ -87,6 +87,18 @@ fn add_failure_injection(p: &mut Pool, r: &mut crate::rng::Rng) {
     // parser saw first must not matter
     p.partials.push(("pg0.liquid".into(), "(g0L:{{ tagv }})".into()));
     p.mains.push(designed.to_string());
+    // more than 10 000 bytes of output before a data-chosen failure (buffers sized by a first guess
+    // are outgrown), and a case whose arms overlap (which arm a value takes must not depend on
+    // what earlier renders took)
+    p.mains.push(
+        concat!(
+            "{% for i in (1..260) %}0123456789abcdefghijklmnopqrstuvwxyz-{{ tagv }}{% endfor %}",
+            "{% case pname %}{% when 'pg0' %}A{% when 'pg0', 'pg1' %}B{% when 'pg1', 'pg0.liquid' %}C{% else %}E{% endcase %}",
+            "{% for q in (1..3) %}{% case q %}{% when 2, 3 %}x{% when 1, 2 %}y{% when 3 %}z{% endcase %}{% endfor %}",
+            "{% if fail != 'none' %}{{ nope }}{% endif %}|tail"
+        )
+        .to_string(),
+    );
     let modes = ["none", "capture", "loop", "after-break", "partial", "ifchanged"];
     for (k, d) in p.datas.iter_mut().enumerate() {
         if let crate::val::RVal::Object(kv) = d {
